@@ -797,6 +797,10 @@ func c09SpellKinds(kinds []byte, variant int, sep string) string {
 			b.WriteString(sep)
 		}
 		if sp, ok := c09Spell[k]; ok {
+			if variant < 0 {
+				b.WriteString(sp[0]) // plain spelling: a, "x", $1
+				continue
+			}
 			b.WriteString(sp[(variant+i)%len(sp)])
 		} else {
 			b.WriteByte(k)
@@ -813,7 +817,7 @@ func (r *c09Runner) phaseAllTokenStrings(n int) {
 		for i := range idx {
 			kinds[i] = c09Kinds[idx[i]]
 		}
-		s := c09SpellKinds(kinds, 0, " ")
+		s := c09SpellKinds(kinds, -1, " ")
 		q, _ := c09Oracle(s)
 		if d := c09Derives(kinds); d != (q != nil) {
 			fmt.Fprintf(os.Stderr, "C09 HARNESS ERROR: the two reference oracles disagree on %q (descent=%v, derivation=%v)\n", s, q != nil, d)
